@@ -5,8 +5,10 @@ whenever a blocking call (RE(...), resume, abort, stop, halt) returns with the e
   * every device got, since the previous idle moment, at least as many unstage() calls as successful
     stage() calls, and no device's last successful stage() is left without a later unstage() call,
   * every device's last set() call is followed by a stop() call.
-Flyers, monitors and per-call subscriptions are not exercised by the engine corpus (the driver has no
-kickoff/monitor support): that part of the statement is not covered (see manifest_parts/C06.json).
+  * every subscription a `monitor` message installed on a device (subscribe) has been removed (clear_sub):
+    an oracle-only case family (monitors are not in the engine model; those cases are not sent to Coq).
+Flyers and per-call subscriptions are not exercised (the driver has no kickoff support): not covered
+(see manifest_parts/C06.json).
 """
 from harness.props.engine_common import *  # noqa: F401,F403  (impl_batch/nontrivial/describe/... shared by the engine family)
 from harness.props import engine_common as ec
@@ -105,6 +107,11 @@ def problems(obs):
                 out.append(("stop", "%s device %d had been set and was not told to stop after its last set" % (where, d)))
             if needs_unstage(led, d):
                 out.append(("unstage", "%s device %d was left staged (no unstage after its last successful stage)" % (where, d)))
+        for d in devices_of(led):
+            nsub = sum(1 for c in led if c[0] == d and c[1] == "subscribe" and _ok(c[2]))
+            nclr = sum(1 for c in led if c[0] == d and c[1] == "clear_sub")
+            if nsub != nclr:
+                out.append(("monitor", "%s device %d had %d subscription(s) installed by monitor and %d removed" % (where, d, nsub, nclr)))
         for d in devices_of(seg):
             ns = sum(1 for c in seg if c[0] == d and c[1] == "stage" and _ok(c[2]))
             nu = sum(1 for c in seg if c[0] == d and c[1] == "unstage")
